@@ -100,7 +100,7 @@ fn block() -> BoxedStrategy<Vec<Step>> {
             e.extend_from_slice(&args[2..]);
             vec![Step::Cmd { conn, args: vec![bs("SCRIPT"), bs("LOAD"), src] }, Step::Cmd { conn, args: e }]
         }),
-        3 => (0..n, 1..n, select(vec![bs("bq"), bs("k")]), select(vec![bs("BLPOP"), bs("BRPOP")]), select(vec![bs("LPUSH"), bs("RPUSH")])).prop_map(|(a, off, k, pop, push)| {
+        3 => (0..n, 1..n, select(vec![bs("bq"), bs("k"), b"bq\xff\xfe".to_vec(), b"b q\r\n".to_vec()]), select(vec![bs("BLPOP"), bs("BRPOP")]), select(vec![bs("LPUSH"), bs("RPUSH")])).prop_map(|(a, off, k, pop, push)| {
             let b = (a + off) % 3;
             vec![
                 Step::Cmd { conn: a, args: vec![bs("SELECT"), bs("5")] },
